@@ -926,7 +926,12 @@ def p_compilerDirective(p):
             if os.path.dirname(p.parser.file):
                 fname = os.path.join(os.path.dirname(p.parser.file),
                                      fname)
-        p.parser.mofcomp.compile_file(fname, p.parser.target_namespace)
+        mofcomp = p.parser.mofcomp
+        if os.path.abspath(fname) in mofcomp.include_stack:
+            raise MOFParseError(
+                msg=_format("Recursive include of MOF file {0!A}", fname),
+                parser_token=p)
+        mofcomp.compile_file(fname, p.parser.target_namespace)
 
     elif directive == 'namespace':
         # parse the param to separate out namespace from other wbemuri pieces
@@ -2821,6 +2826,8 @@ class MOFCompiler:
             self.parser.qualcache[default_namespace] = NocaseDict()
             self.parser.classnames[default_namespace] = []
         self.parser.mofcomp = self
+        # Absolute path names of the MOF files currently being compiled
+        self.include_stack = []
         self.parser.verbose = verbose
         self.parser.aliases = {}
         self.parser.log = self._log
@@ -3073,7 +3080,12 @@ class MOFCompiler:
         with open(filename, encoding='utf-8') as f:
             mof = f.read()
 
-        return self.compile_string(mof, ns, filename=filename)
+        # Keep track of the files being compiled, to detect recursive includes
+        self.include_stack.append(os.path.abspath(filename))
+        try:
+            return self.compile_string(mof, ns, filename=filename)
+        finally:
+            self.include_stack.pop()
 
     def find_mof(self, classname):
         """
